@@ -240,6 +240,35 @@ func runLz4c(c *lz4cCase) string {
 
 func compLz4c(o *out, seed uint64, tier string) {
 	r := newRng(seed, "lz4c")
+	// a file whose FIRST block is incompressible (stored raw) and whose later blocks compress, through the
+	// sequential Writer (-c 1 keeps one block object for the whole frame) and the default concurrent one
+	for i, fl := range []string{"-size 64K -c 1", "-size 64K -c 1 -sc -bc", "-size 64K"} {
+		data := append(genData(0, 40+i, 65536), genData(1, 7, 20000+i)...)
+		c := &lz4cCase{data: "h:" + hx(data), flags: fl, stdio: i == 1, mode: 0644}
+		obs := runLz4c(c)
+		ilz := ""
+		for _, kv := range strings.Split(obs, " ") {
+			if strings.HasPrefix(kv, "lz4=") {
+				ilz = kv[4:]
+			}
+		}
+		o.emit("lz4c", c.fields()+" ilz4="+ilz, obs, true)
+		o.count("incompressible-then-compressible")
+	}
+	// a block that is incompressible except for a late first match: the block compressor, given a
+	// destination of len(src) bytes by the frame layer, reports an error BY DESIGN and the block is stored
+	for i, fl := range []string{"-size 64K -c 1", "-size 64K", "-size 64K -l 5 -c 2"} {
+		c := &lz4cCase{data: fmt.Sprintf("g:%d,%d,%d", 4+i%2, 11+i, 65536+i*3000), flags: fl, stdio: i == 2, mode: 0644}
+		obs := runLz4c(c)
+		ilz := ""
+		for _, kv := range strings.Split(obs, " ") {
+			if strings.HasPrefix(kv, "lz4=") {
+				ilz = kv[4:]
+			}
+		}
+		o.emit("lz4c", c.fields()+" ilz4="+ilz, obs, true)
+		o.count("late-match-in-incompressible-block")
+	}
 	n := 40
 	if tier == "thorough" {
 		n = 400
